@@ -464,6 +464,10 @@ class Interp:
                     self.store_view(view, lambda k: v, lineno)
                 return
             idx = self.eval(sl, env)
+            if isinstance(idx, list):
+                idx = self.list_to_arr(idx)
+            if isinstance(v, list):
+                v = self.list_to_arr(v)
             if isinstance(idx, SArr) and idx.kind == "bool":
                 M.same_len(obj.length, idx.length, "maskstore", lineno)
                 fm = idx.snapshot()
@@ -556,7 +560,7 @@ class Interp:
         self.loop_with_invariant(s, env, it)
 
     def concrete_items(self, it):
-        if isinstance(it, (list, tuple)):
+        if isinstance(it, (list, tuple, str)):
             return list(it)
         if isinstance(it, range):
             return list(it)
